@@ -460,7 +460,7 @@ class Sim:
                     if lst.armed:
                         lst.armed = False
                         publisher.start()
-                        publisher.join(0.05)
+                        publisher.join(0.03)
                     list.append(lst, item)
             res._callbacks = PausingList(res._callbacks)
             res.add_callback(CB(int(cid), self))
@@ -1362,7 +1362,7 @@ def correspondence(ctx):
     lines, impl = [], []
     kinds = {}
     r = Rng(ctx.seed).fork("c15")
-    n_recheck = ctx.budget(600, 6000)          # per batch
+    n_recheck = ctx.budget(300, 6000)          # per batch
 
     def add(t0, toks, got):
         lines.append("async run %d %s" % (t0, " ".join(toks)))
@@ -1491,7 +1491,7 @@ def correspondence(ctx):
                 c.disagreements.append(dict(case=call_case_line(cs), impl=a, model=b))
             else:
                 c.signatures.add(hash(a))
-        n_seeded = ctx.budget(15000, 400000)
+        n_seeded = ctx.budget(10000, 400000)
         for i in range(n_seeded):
             toks = gen_sequence(r, r.range(1, 14))
             t0 = r.choice([0, 0, 5, 1000])
